@@ -555,13 +555,26 @@ pub fn wkind_name(k: usize) -> &'static str {
 
 fn payload(counter: &mut u64, n: usize) -> Vec<u8> { (0..n).map(|_| { *counter += 1; (*counter * 31 + (*counter >> 8)) as u8 }).collect() }
 
+/// One operation of a writer history as the writer model reads it: (code, numeric argument, payload) and what the
+/// implementation answered: the outcome and the length of the destination afterwards.  code -1 = not modelled.
+pub struct WLog { pub code: i128, pub arg: i128, pub data: Vec<u8>, pub out: i128, pub dest: i128 }
+thread_local! {
+    pub static WLOG: std::cell::RefCell<Vec<WLog>> = std::cell::RefCell::new(vec![]);
+    /// what zc_ensure_write granted (-1 = the operation did not run)
+    pub static LAST_K: std::cell::Cell<i128> = std::cell::Cell::new(-1);
+}
+fn wlog(code: i128, arg: i128, data: &[u8], out: i128) {
+    let dest = super::c13_io::CHUNKY_LEN.with(|c| c.get()) as i128;
+    WLOG.with(|l| l.borrow_mut().push(WLog { code, arg, data: data.to_vec(), out, dest }));
+}
+
 /// Generic driver over io::Write; operations the writer kind adds come through `ext` (Some(true) = the payload was accepted).
 fn run_w<W: Write>(w: &mut W, ops: &[Op], accepted: &mut Vec<u8>, ctr: &mut u64, ext: &mut dyn FnMut(&mut W, &str, usize, &[u8], &[u8]) -> Result<Option<bool>, String>) -> Result<(), String> {
     for (idx, (name, n)) in ops.iter().enumerate() {
         match name.as_str() {
-            "write" => { let d = payload(ctr, *n as usize); let k = w.write(&d).map_err(|x| format!("op {} write({}) failed: {}", idx, n, x))?; if k > d.len() { return Err(format!("op {}: write accepted {} of {}", idx, k, d.len())); } accepted.extend_from_slice(&d[..k]); }
-            "write_all" => { let d = payload(ctr, *n as usize); w.write_all(&d).map_err(|x| format!("op {} write_all({}) failed: {}", idx, n, x))?; accepted.extend_from_slice(&d); }
-            "flush" => w.flush().map_err(|x| format!("op {} flush failed: {}", idx, x))?,
+            "write" => { let d = payload(ctr, *n as usize); let k = w.write(&d).map_err(|x| format!("op {} write({}) failed: {}", idx, n, x))?; if k > d.len() { return Err(format!("op {}: write accepted {} of {}", idx, k, d.len())); } accepted.extend_from_slice(&d[..k]); wlog(0, 0, &d, k as i128); }
+            "write_all" => { let d = payload(ctr, *n as usize); w.write_all(&d).map_err(|x| format!("op {} write_all({}) failed: {}", idx, n, x))?; accepted.extend_from_slice(&d); wlog(1, 0, &d, 1); }
+            "flush" => { w.flush().map_err(|x| format!("op {} flush failed: {}", idx, x))?; wlog(2, 0, &[], 1); }
             // VectoredIO::write_vectored of three buffers (the middle one empty): the first `total` bytes of the buffers, in order, were written
             "vecw" => {
                 let d = payload(ctr, *n as usize);
@@ -570,8 +583,25 @@ fn run_w<W: Write>(w: &mut W, ops: &[Op], accepted: &mut Vec<u8>, ctr: &mut u64,
                 let k = zipora::io::VectoredIO::write_vectored(w, &bufs).map_err(|x| format!("op {} write_vectored({}) failed: {}", idx, n, x))?;
                 if k > d.len() { return Err(format!("op {}: write_vectored accepted {} of {}", idx, k, d.len())); }
                 accepted.extend_from_slice(&d[..k]);
+                wlog(-1, 0, &[], 0);
             }
-            other => { let d = payload(ctr, *n as usize); if let Some(true) = ext(w, other, *n as usize, &d, accepted).map_err(|x| format!("op {} ({} {}): {}", idx, other, n, x))? { accepted.extend_from_slice(&d); } }
+            other => {
+                let d = payload(ctr, *n as usize);
+                LAST_K.with(|c| c.set(-1));
+                let r = ext(w, other, *n as usize, &d, accepted).map_err(|x| format!("op {} ({} {}): {}", idx, other, n, x))?;
+                if let Some(true) = r { accepted.extend_from_slice(&d); }
+                let granted = LAST_K.with(|c| c.get());
+                match (other, r) {
+                    ("byte", Some(true)) => wlog(3, 0, &d, 1),
+                    ("direct", Some(true)) => wlog(4, 0, &d, 1),
+                    ("zc", Some(b)) => wlog(5, 0, &d, b as i128),
+                    ("zc_ensure", None) if granted >= 0 => wlog(6, *n as i128, &[], granted),
+                    // observers and operations the kind does not have leave the writer alone
+                    (_, None) => {}
+                    // anything else that was accepted is not part of the model
+                    _ => wlog(-1, 0, &[], 0),
+                }
+            }
         }
     }
     Ok(())
@@ -584,13 +614,16 @@ pub fn writer(cx: &mut Ctx, kind: usize, cfg: &[u64], ops: &[Op]) {
     let cj = json!({"cell": "writer", "kind": kind, "cfg": cfg, "ops": ops_json(ops)});
     if !cx.gate(&cj) { return; }
     cx.sum.eval(&cell, &cj.to_string(), ops.len() >= 3);
-    cx.sum.cell_status(&cell, "S-only");
+    if !matches!(kind, 0 | 1 | 2 | 3 | 8 | 9) { cx.sum.cell_status(&cell, "S-only"); }
     for (name, _) in ops { if matches!(name.as_str(), "vecw" | "zc_ensure" | "winfo" | "seek_start" | "seek_cur" | "seek_end" | "truncate") { cx.sum.dist(&format!("writer_op_{}", name)); } }
     let cap = g(cfg, 0, 8) as usize;
     let bulk = (g(cfg, 1, 8192) as usize).max(1);
     let chunk = g(cfg, 2, 1).max(1) as usize;
     let path = format!("{}/wr_{}.bin", cx.tmp, kind);
     let e = |x: zipora::ZiporaError| x.to_string();
+    WLOG.with(|l| l.borrow_mut().clear());
+    super::c13_io::CHUNKY_LEN.with(|c| c.set(0));
+    let mut final_dest: Option<Vec<u8>> = None;
     let r = guarded(|| -> Result<(), String> {
         let mut accepted: Vec<u8> = vec![];
         let mut ctr = 0u64;
@@ -630,6 +663,7 @@ pub fn writer(cx: &mut Ctx, kind: usize, cfg: &[u64], ops: &[Op]) {
                         }
                         "zc_ensure" => {
                             let k = w.zc_ensure_write(n).map_err(|x| x.to_string())?;
+                            LAST_K.with(|c| c.set(k as i128));
                             if k > n || k > w.zc_write_available() || (n <= cap_eff && k != n) { return Err(format!("zc_ensure_write({}) = {} with {} bytes of space (capacity {})", n, k, w.zc_write_available(), cap_eff)); }
                             Ok(None)
                         }
@@ -671,12 +705,29 @@ pub fn writer(cx: &mut Ctx, kind: usize, cfg: &[u64], ops: &[Op]) {
             _ => return zc_buffer(cfg, ops),
         };
         if got != accepted { return Err(format!("destination holds {} bytes {:?}, the writer accepted {} bytes {:?}", got.len(), &got[..got.len().min(40)], accepted.len(), &accepted[..accepted.len().min(40)])); }
+        final_dest = Some(got);
         Ok(())
     });
     match r {
         Err(p) => cx.sum.fail(&cell, None, cj, &format!("panicked: {}", p)),
         Ok(Err(why)) => cx.sum.fail(&cell, None, cj, &why),
-        Ok(Ok(())) => {}
+        Ok(Ok(())) => {
+            // model tie: the buffered and the zero-copy writer (explicit and default configuration) over the short-write destination
+            if let Some(dest) = final_dest {
+                let log = WLOG.with(|l| std::mem::take(&mut *l.borrow_mut()));
+                let unlimited = |on: bool| if on { chunk as i128 } else { 0 };
+                let (zc, capm, bulkm, chunkm): (bool, i128, i128, i128) = match kind {
+                    0 => (false, cap.max(1) as i128, bulk as i128, 0),
+                    1 => (false, cap.max(1) as i128, bulk as i128, chunk as i128),
+                    8 => (false, 65536, 8192, unlimited(g(cfg, 2, 0) > 0)),
+                    2 => (true, cap as i128, 0, 0),
+                    3 => (true, cap as i128, 0, chunk as i128),
+                    9 => (true, 65536, 0, unlimited(g(cfg, 2, 0) > 0)),
+                    _ => return,
+                };
+                cx.coq_writer(&cell, zc, capm, bulkm, chunkm, &log, &dest);
+            }
+        }
     }
 }
 
